@@ -4,7 +4,7 @@ import json, os, random
 import vlib
 
 PROP = "C19"
-PLANS = ["ok", "badline", "silent", "partial", "closeout", "exitearly"]
+PLANS = ["ok", "badline", "silent", "partial", "closeout", "exitearly", "startfails"]
 SILENT = {"ProcGone", "WaitMarkExited"}
 OPS = ["Start", "Protocol", "ClientCall", "ReattachConfig", "ID", "Exited", "Kill"]
 
@@ -30,7 +30,7 @@ def gen_cases(tier, rng, cov, plans=PLANS):
     # concurrent mixes: two goroutines, the handshake line delayed so that calls overlap the launch
     nconc = 80 if tier == "quick" else 1200
     for i in range(nconc):
-        plan = rng.choice(["ok", "ok", "badline", "exitearly", "silent"])
+        plan = rng.choice(["ok", "ok", "badline", "exitearly", "silent", "startfails"])
         k = rng.randint(3, 6)
         calls = [rng.choice(OPS[:3] + OPS) for _ in range(k)]
         cases.append({"name": "lc%d" % len(cases), "plan": plan, "calls": calls, "concurrent": True,
